@@ -53,6 +53,7 @@ void harness(void)
 	V_REQ((in_id[0] & 0x80) == 0);
 	ret = mpt_reply_set(&ctx->data, in_len, in_id);
 	V_CHECK("arm: accepted within capacity", ret >= 0 && ctx->data.len == in_len);
+	V_CHECK("arm: the whole request id is stored, at every width", IMP(ret >= 0 && in_k < in_len, RDVAL(&ctx->data, in_k) == in_id[in_k]));
 	V_CHECK("arm: reply context itself undisturbed", ctx->ref._val == 1 && ctx->reply.send == (in_attached ? h_send : 0) && ctx->reply.ptr == (in_has_ptr ? (void *) &g_token : 0) && ctx->_ctx._vptr == rc->_vptr && ctx->data._max == in_max);
 	ctx->ref._val = in_ref;   /* any number of further holders */
 	if (in_len) { old_first = RDVAL(&ctx->data, 0); if (g_k < in_len) old_k = RDVAL(&ctx->data, g_k); }
@@ -107,6 +108,7 @@ void harness(void)
 #elif defined(UNIT_UNREF)
 	mt->_vptr->unref(mt);
 	V_CHECK("release: other holders => object stays, no reply yet", IMP(in_ref > 1, ctx->ref._val == in_ref - 1 && g_sends == 0 && ctx->data.len == in_len));
+	V_CHECK("release: a holder that lets go detaches the transport (outstanding handles can no longer reach it)", IMP(in_ref > 1, ctx->reply.send == 0));
 	V_CHECK("release: last holder of an armed, attached request => exactly one default reply", IMP(in_ref == 1 && in_len && in_attached && in_has_ptr, g_sends == 1 && g_seen_msg == 0 && g_seen_len == in_len && g_seen_first == (old_first | 0x80) && IMP(g_k > 0 && g_k < in_len, g_seen_k == old_k)));
 	V_CHECK("release: nothing armed or no transport => no reply", IMP(in_len == 0 || !in_attached || !in_has_ptr, g_sends == 0));
 	/* last holder => destroyed: checked by the leak check below (nothing may survive) and CBMC's free model (no double free) */
